@@ -1,7 +1,7 @@
 (* C10: state variables never alias; reported layout = used layout.
    Property theorems (proved in AllocProofs.v / Paths.v / OverrideProofs.v) + non-vacuity examples. *)
 From Coq Require Import ZArith Bool List String Lia.
-From Verif Require Import Base.PyInt Base.Word256 C03.LIR C10.GenAlloc C10.Layout C10.Alloc C10.Paths C10.AllocProofs C10.OverrideProofs C10.AddrTemplates.
+From Verif Require Import Base.PyInt Base.Word256 C03.LIR C10.GenAlloc C10.Layout C10.Alloc C10.Paths C10.AllocProofs C10.OverrideProofs C10.AddrTemplates C03.VSL C10.VAddrTemplates.
 Import ListNotations.
 Open Scope Z_scope.
 
@@ -130,6 +130,21 @@ Theorem addr_code_matches_layout : forall path ws signs k t p e pv q o t',
   leval e q = Val (wrap (pv + ws * o)).
 Proof. exact addr_path_correct. Qed.
 Print Assumptions addr_code_matches_layout.
+
+(* the same for the venom front end, per subscript / struct-member step (Expr._lower_array_subscript with its
+   bounds check, Expr._lower_struct_field): the emitted pointer is base + ws * step offset *)
+Theorem venom_addr_code_matches_layout : forall ws signed t s e pv x l tpl c o c',
+  (ws = 1 \/ ws = 32) ->
+  vaddr_step ws signed t s = Some (tpl, c) ->
+  lookup e "p0"%string = Some pv -> 0 <= pv < W ->
+  lookup e "p1"%string = Some x -> 0 <= x < W ->
+  lookup e "ld0"%string = Some l -> 0 <= l < W ->
+  (match t with TSArr _ n => 0 <= n < W | _ => True end) ->
+  step_child t (match s with SIdx _ => SIdx (idxv signed x) | s' => s' end) = Some (o, c') ->
+  (match t with TDArr _ _ => idxv signed x < l | _ => True end) ->
+  c = c' /\ vrun e tpl = Val (wrap (pv + ws * o)).
+Proof. exact vaddr_step_correct. Qed.
+Print Assumptions venom_addr_code_matches_layout.
 
 (* nested HashMaps: entries behind different (variable, key chain) never overlap, and never reach the static area *)
 Theorem chained_maps_distinct :
